@@ -74,24 +74,28 @@ def adaptNodes {ν : Type} (dom : ν → String) (conv : ν → List ν) (mkCons
     (initializersToConstants mkConst
       { inputs := inputs, initializers := convInitializers, nodes := convertNodes dom conv nodes }).nodes
 
+/-- `adapt_inline` as a whole on the model side: decision, conversion, initializer step -/
+def adaptInline {ν : Type} (dom : ν → String) (conv : ν → List ν) (mkConst : String → ν)
+    (m : Inlined) (target : Nat) (inputs convInitializers : List String) (nodes : List ν) : List ν :=
+  adaptNodes dom conv mkConst (decide m target) inputs convInitializers nodes
+
 /-! ## what of `_adapt.py` this model covers (compared with `Generated/AdaptAttrInventory.lean`, tie G) -/
 
 /-- The exits of `adapt_inline` — (kind, returned expression, guarding tests) — one per branch of
-    `decide` (parameters and locals alpha-renamed `v0, v1, …` by the translator; `v1` = `protos`,
-    `v7` = `seen_domains`, `v6`/`v5` = source/target version, `v11` = `target_nodes`): no default-domain node → `keep`; versions differ → `convert`; fall through → `keep`.
+    `decide` (normalised by the translator: single-assignment locals inlined, parameters `p0…` = node, protos, target_opsets, var_names, node_name, bound names `b0…`): no default-domain node → `keep`; versions differ → `convert`; fall through → `keep`.
     A further exit (an early `return protos` under some new condition) is a code path `decide`
     does not have. -/
-def coveredExits : List (String × String × List String) := [("return", "v1", ["not v7 & {'', 'ai.onnx'}"]), ("return", "v11", ["v6 != v5"]), ("return", "v1", [])]
+def coveredExits : List (String × String × List String) := [("return", "p1", ["not {b0.domain for b0 in p1} & {'', 'ai.onnx'}"]), ("return", "p0.to_onnx(Scope.of((p0, p4), *p3.items()))", ["max({b0.version for b0 in p0.model.opset_import if b0.domain in ('', 'ai.onnx')}, default=p2['']) != p2['']"]), ("return", "p1", [])]
 
 /-- Every function of `_adapt.py` with the (kind, guards) of each of its exits. `adapt_best_effort`
     dispatches `_Inline` nodes to `adapt_inline` first and leaves nodes of other domains alone
     (`proto.domain not in ('', 'ai.onnx')` → `None`, i.e. emitted verbatim: C18's custom nodes);
     `_initializers_to_constants` = `initializersToConstants` (early return when nothing is to be rewritten). -/
 def coveredFunctions : List (String × List (String × List String)) := [
-  ("adapt_node", [("return", ["v2 == v3"]), ("return", ["<except ValueError>"]), ("return", [])]),
-  ("_initializers_to_constants", [("return", ["not v2"])]),
-  ("adapt_inline", [("return", ["not v7 & {'', 'ai.onnx'}"]), ("return", ["v6 != v5"]), ("return", [])]),
-  ("adapt_best_effort", [("return", ["isinstance(v0, _Inline)"]), ("return", ["isinstance(v0, _InternalNode) or len(v1) != 1"]), ("return", ["any((isinstance(v14, AttrGraph) for v14 in v0.attrs.get_fields().values()))"]), ("return", ["not v10"]), ("return", ["v5.domain not in ('', 'ai.onnx')"]), ("return", [])])
+  ("adapt_node", [("return", ["p2 == p3"]), ("return", ["<except ValueError>"]), ("return", [])]),
+  ("_initializers_to_constants", [("return", ["not [onnx.helper.make_node('Constant', [], [b0.name], value=b0) for b0 in p0.initializer if b0.name not in {b1.name for b1 in p0.input}]"])]),
+  ("adapt_inline", [("return", ["not {b0.domain for b0 in p1} & {'', 'ai.onnx'}"]), ("return", ["max({b0.version for b0 in p0.model.opset_import if b0.domain in ('', 'ai.onnx')}, default=p2['']) != p2['']"]), ("return", [])]),
+  ("adapt_best_effort", [("return", ["isinstance(p0, _Inline)"]), ("return", ["isinstance(p0, _InternalNode) or len(p1) != 1"]), ("return", ["any((isinstance(b0, AttrGraph) for b0 in p0.attrs.get_fields().values()))"]), ("return", ["not b0"]), ("return", ["b0.domain not in ('', 'ai.onnx')"]), ("return", [])])
 ]
 
 /-- the names `adapt_inline` calls: the converter, the new initializer step, re-emission under the same scope -/
